@@ -70,7 +70,7 @@ class Case final : public sim::CaseBase {
     if (f == 1) {
       reject_from = static_cast<int>(g.Draw(4));
     } else if (f == 2 && under != kInline) {
-      stop_kind = 1 + static_cast<int>(g.Draw(2));
+      stop_kind = 1 + static_cast<int>(g.Draw(3));
       stop_at = g.Draw(30) * 20;
     }
     body_points = static_cast<int>(g.Draw(3));
@@ -87,7 +87,7 @@ class Case final : public sim::CaseBase {
       j.KV("underlying_rejects_from_submission", reject_from);
     }
     if (stop_kind != 0) {
-      j.KV("pool_stop", stop_kind == 1 ? "Stop" : "HardStop").KV("pool_stop_at_ns", stop_at);
+      j.KV("pool_stop", stop_kind == 1 ? "Stop" : stop_kind == 2 ? "HardStop" : "SoftStop").KV("pool_stop_at_ns", stop_at);
     }
     j.KV("preemption_points_in_job_body", body_points);
   }
@@ -165,8 +165,10 @@ class Case final : public sim::CaseBase {
         SIM_FAULT("executor_stop");
         if (stop_kind == 1) {
           pool.Stop();
-        } else {
+        } else if (stop_kind == 2) {
           pool.HardStop();
+        } else {
+          pool.SoftStop();  // the pool stops by itself once it is idle; a strand scheduled meanwhile is run or dropped, never kept
         }
       }};
     }
